@@ -74,3 +74,35 @@ Definition list_maxZ (l : list Z) : Z := match l with [] => 0%Z | x :: r => fold
 Fixpoint insZ (x : Z) (l : list Z) : list Z :=
   match l with [] => [x] | y :: r => if (x <=? y)%Z then x :: l else y :: insZ x r end.
 Definition sortZ (l : list Z) : list Z := fold_right insZ [] l.
+
+(* ---- generic text functions (str.strip with a class, str.split on one character) ---- *)
+Fixpoint dropwhile (p : N -> bool) (s : text) : text :=
+  match s with [] => [] | c :: r => if p c then dropwhile p r else s end.
+Definition strip_by (p : N -> bool) (s : text) : text := rev (dropwhile p (rev (dropwhile p s))).
+
+(* s.split(d) for a one-character separator d: never empty *)
+Fixpoint split1 (d : N) (s : text) : list text :=
+  match s with
+  | [] => [[]]
+  | c :: r => match split1 d r with
+              | [] => [[]]                                (* unreachable *)
+              | w :: ws => if c =? d then [] :: w :: ws else (c :: w) :: ws
+              end
+  end.
+
+
+(* ---- CRC-32 (ISO 3309 / RFC 1952 section 8), little-endian 32-bit fields ------------- *)
+Fixpoint iter_n {A} (n : nat) (f : A -> A) (x : A) : A :=
+  match n with O => x | S k => iter_n k f (f x) end.
+
+Definition crc_byte (crc byte : N) : N :=
+  iter_n 8 (fun c => if N.odd c then N.lxor (N.shiftr c 1) 0xEDB88320 else N.shiftr c 1)
+         (N.lxor crc byte).
+Definition crc32 (b : list N) : N := N.lxor (fold_left crc_byte b 0xFFFFFFFF) 0xFFFFFFFF.
+
+Definition le32 (n : N) : list N :=
+  [n mod 256; (n / 256) mod 256; (n / 65536) mod 256; (n / 16777216) mod 256].
+Definition of_le32 (l : list N) : N :=
+  match l with [a; b; c; d] => a + 256 * b + 65536 * c + 16777216 * d | _ => 0 end.
+
+Definition len_N (b : list N) : N := fold_left (fun n _ => n + 1) b 0.       (* tail recursive *)
